@@ -682,9 +682,9 @@ fn dump_body(rels: &[&RelDecl], par: bool, this: &str) -> String {
       );
       let it = if par {
          if r.is_lattice {
-            format!("{this}.{}.iter().map(|(_, t)| {{ let t = t.read().unwrap(); {row} }})", r.name)
+            format!("{this}.{}.iter().map(|t| {{ let t = t.read().unwrap(); {row} }})", r.name)
          } else {
-            format!("{this}.{}.iter().map(|(_, t)| {row})", r.name)
+            format!("{this}.{}.iter().map(|t| {row})", r.name)
          }
       } else {
          format!("{this}.{}.iter().map(|t| {row})", r.name)
